@@ -135,7 +135,7 @@ pub fn generate(o: &GenOpts) -> Vec<Sample> {
                 let (snp, indel, nrun, iu) = match o.kind.as_str() {
                     "dup" => (0.0, 0.0, 0.0, 0.0),
                     "iupac" => (0.01, 0.002, 0.004, 0.01),
-                    "manysamples" => (0.004 * (1 + i % 5) as f64, 0.0005, 0.0, 0.0),
+                    "manysamples" => (if i % 3 == 0 { 0.012 } else { 0.05 }, 0.0005, 0.0, 0.0), // most segments differ from the reference: > 50 distinct deltas per group
                     _ => {
                         let d = [0.0, 0.002, 0.01, 0.03, 0.10][(i + c) % 5];
                         (d, d / 5.0, if (i + c) % 3 == 0 { 0.002 } else { 0.0 }, if (i + c) % 4 == 0 { 0.003 } else { 0.0 })
